@@ -43,6 +43,15 @@ def run(ctx):
             broken.append({"kind": "obligation", "name": "driver c17 crashed", "detail": err[-1500:]})
         dis = ctx.correspond(lines, orc, "kafka.Conn / protocol.ReadResponse on a cut stream ↔ Model/ConnOps.lean, Props/C17 Decoder contract",
                              nontrivial=lambda op, impl: not impl.startswith("ok"))
+    by_op = {}
+    for l in (lines if (orc and drv) else []):
+        f = l.split(" ")
+        if len(f) > 2 and f[0] == "c17":
+            k = ":".join(f[2].split(":")[:2])
+            by_op[k] = by_op.get(k, 0) + 1
+        elif f[0] == "rr":
+            by_op["ReadResponse"] = by_op.get("ReadResponse", 0) + 1
+    ctx.coverage["cases_by_op_version"] = by_op
     ctx.coverage["rule"] = ("Conn path: every Conn operation x negotiated version x {no error, error code in the first error field; fetch: error frame, top-level error (v10), "
                             "empty at watermark, v2 one/two batches, v1 set, gzip v1/v2 (thorough: + snappy, lz4, zstd, three batches)} x cut k (quick: 0..12, last 4, 10 random, full; "
                             "thorough: every k in [0,|F|]). Transport path: protocol.ReadResponse for all registered APIs x all versions, frame from WriteResponse of a reflectively filled "
